@@ -515,8 +515,9 @@ def c05_family(tier, n):
     # a multi-topic '?' source next to a synchronized one: an ephemeral set is handed over complete or not at all
     for order in ['eph-first', 'sync-first']:
         srcs = ['side?;main>side;aux>side2', 'src'] if order == 'eph-first' else ['src', 'side?;main>side;aux>side2']
-        fs = [src(n, required='snk', period=40), src(n + 4, 'side', period=25, topics=['main', 'aux']), sink('snk', srcs)]
-        out.append(timely(scn(f'mixed2topics/{order}', fs), quiet=800))
+        for ps in [40, 25]:      # (same pace: both sets are regularly in flight towards the consumer at the same poll)
+            fs = [src(n, required='snk', period=40), src(n + 4, 'side', period=ps, topics=['main', 'aux']), sink('snk', srcs)]
+            out.append(timely(scn(f'mixed2topics/{order}/p{ps}', fs), quiet=800))
 
     # killed listener (hard kill at every step of the reference run)
     for m in ['?', '??']:
@@ -568,9 +569,24 @@ def c07_family(tier, n):
     # a '?' watcher on one branch (registered before / after the branch's worker), workers of unequal speed
     for speeds in [(130, 0), (0, 130)]:
         for late in [0, 60]:
-            fs = balance(n + 3, speeds)
-            fs.append({**sink('watch', ['w0?']), 'start_at': late})
-            out.append(scn(f'bal2-qwatcher/{speeds}/late{late}', fs))
+            for branch in ['spl?', 'spl.1?', 'w0?']:      # a watcher on a splitter branch itself, or behind a worker
+                fs = balance(n + 3, speeds)
+                fs.append({**sink('watch', [branch]), 'start_at': late})
+                out.append(scn(f'bal2-qwatcher/{speeds}/late{late}/{branch}', fs))
+
+    # a branch that has only a '?' / '??' listener and no worker (worker absent or starting late)
+    for m in ['?', '??']:
+        for late in [None, 300]:
+            fs = balance(n + 3, (0, 0))
+            w0 = fs.pop(1)                                  # remove w0 ...
+            fs[-1]['sources'] = ['w1']
+            fs.append(sink('watch', [f'spl{m}']))           # ... its branch only has a listener
+
+            if late is not None:                            # ... or w0 comes up late
+                fs.insert(1, {**w0, 'start_at': late})
+                fs[-2]['sources'] = ['w0', 'w1']
+
+            out.append(scn(f'bal2-watcher-only/{m}/w0-{"absent" if late is None else "late"}', fs))
 
     # the logging switches must not change what is delivered
     for speeds in [(40, 0), (0, 130)]:
